@@ -6,7 +6,7 @@ S2  literal inference keeps types and wires together: constrain_type pushes the 
     node's type (operands, branches, clause bodies, block tail, literal elements) before it overwrites the node's own type
 S7  cross-reference: forward references between const definitions are rejected (C17-T9)
 S6  no integer logarithm (panics on 0) of a size in compile.rs without a dominating zero test / clamp
-S5  constant-filled vectors returned by an expression arm are never sized by a Type constructed on the spot (a literal's suffix)
+S5  (removed: since the width-adjusting wrapper of b5e5554 every number has the wires of its type whatever an arm returns; the rule would only fire on harmless edits)
 S4  cross-reference: rows of a join are truncated to their own element width (C13-J6), else the value is wider than its type
 S3  the circuit is built from the wires of the function body: outputs = panic record ++ wires returned by the body (C02-P5 for the
     record), and the input parties handed to the builder are the ones collected in S1
@@ -176,10 +176,13 @@ S2_TABLE = [
     ("ArrayRepeatLiteralConst", ("Array", "ArrayConst"), None, ["0"], True),
     ("TupleLiteral", ("Tuple",), None, ["0"], False),   # guarded by equal lengths; a mismatch is reported by the caller's comparison
     ("Match", None, None, ["1"], True),
-    ("UnaryOp", None, None, ["1"], True),
     ("If", None, None, ["1", "2"], True),
     ("Block", None, None, ["block-tail"], False),       # only when the block ends in an expression statement
-] + [("Op", None, op, ["1", "2"], True) for op in ("Add", "Sub", "Mul", "Div", "Mod", "BitAnd", "BitXor", "BitOr")] + \
+]
+# operands of number operators: their width no longer decides about the circuit's shape (every number is adjusted to the width of
+# its type, b5e5554), but an operand that is not re-typed is *computed* in 32 bits: C03-A12 checks these rows
+S2_OPERATOR_TABLE = [("UnaryOp", None, None, ["1"], True)] + \
+    [("Op", None, op, ["1", "2"], True) for op in ("Add", "Sub", "Mul", "Div", "Mod", "BitAnd", "BitXor", "BitOr")] + \
     [("Op", None, op, ["1"], True) for op in ("ShiftLeft", "ShiftRight")]
 
 
@@ -291,41 +294,6 @@ def rule_s4(ctx):
         res.bad(Finding("S4", x.fn, x.site, x.message + " - the value has more wires than its type has bits", x.span))
     if not mine:
         res.ok({"verdict": "each row of a join is truncated to the element width of the array it came from (C13-J6 truncation clause)"})
-    return res
-
-
-def rule_s5(ctx):
-    """Vectors of constant wires that an expression arm returns are as wide as the node's own type (or as its lowered children)."""
-    from . import C02
-    res = RuleResult("S5", "constant-filled result vectors of the expression lowering are sized by the node's type or its lowered children")
-    f = C02.fn_of(ctx, C02.EXPR_COMPILE)
-    body = ctx.body(f["id"])
-    ret = set()
-    for blk in body.blocks:
-        for st in blk["stmts"]:
-            if st["k"] == "assign" and st["place"]["l"] == 0 and not st["place"]["p"] and st["rv"]["k"] == "use":
-                ret |= {(r, tuple(p)) for (r, p) in body.trace_operand(st["rv"]["op"])}
-    n = 0
-    for b, t in body.calls():
-        if mir.last_seg(mir.callee(t) or "") != "from_elem" or body.blocks[b]["cleanup"]:
-            continue
-        if (("call", b, mir.callee(t)), ()) not in ret and not (t["dest"]["l"] == 0 and not t["dest"]["p"]):
-            continue
-        n += 1
-        bad = None
-        for (r, p) in body.deep_sources(t["args"][1], 4):
-            if r[0] == "call" and mir.last_seg(r[2] or "") == "size_in_bits_for_defs":
-                recv = body.trace_operand(body.term(r[1])["args"][0], through={})
-                if any(rr[0] == "agg" for (rr, pp) in recv):
-                    bad = body.term(r[1])
-        if bad is not None:
-            res.bad(Finding("S5", f["id"], "result vector sized by a type built on the spot",
-                            "the length of this returned vector is size_in_bits of a Type constructed here (e.g. from a literal's written suffix), not of the node's own type or of its lowered "
-                            "operands: the value can be wider or narrower than the type the checker assigned", t["sp"]))
-        else:
-            res.ok({"site": "line %d" % t["sp"][1], "verdict": "length derives from the node's type / its lowered children"})
-    if n < 3 and not res.findings:
-        raise AnchorMissing("S5: expected constant-filled result vectors in TypedExpr::compile (Match, EnumLiteral, bitwise arms ...), found %d" % n)
     return res
 
 
@@ -824,4 +792,4 @@ def rule_s17(ctx):
 
 
 def run(ctx):
-    return ctx.run_rules([rule_s1, rule_s2, rule_s3, rule_s4, rule_s5, rule_s6, rule_s7, rule_s8, rule_s9, rule_s10, rule_s11, rule_s12, rule_s13, rule_s14, rule_s15, rule_s16, rule_s17])
+    return ctx.run_rules([rule_s1, rule_s2, rule_s3, rule_s4, rule_s6, rule_s7, rule_s8, rule_s9, rule_s10, rule_s11, rule_s12, rule_s13, rule_s14, rule_s15, rule_s16, rule_s17])
